@@ -953,7 +953,14 @@ func cmdCheck(prop, tier string) int {
 				if vo.TraceHash != v.TraceHash {
 					fmt.Printf("NOTE replay trace hash differs from generating run (%s vs %s)\n", vo.TraceHash, v.TraceHash)
 				}
-				mc, best := minimise(bin, dir, race, v, tc.MinimiseS, W)
+				minS := tc.MinimiseS
+				if e := os.Getenv("VERIF_MINIMISE_S"); e != "" {
+					// (the seeded regression only needs to know whether the change is caught)
+					if x, err := strconv.ParseFloat(e, 64); err == nil {
+						minS = x
+					}
+				}
+				mc, best := minimise(bin, dir, race, v, minS, W)
 				rf.Choices = mc
 				rf.Minimised = true
 				rf.Decoded = best.Decoded
@@ -1056,9 +1063,32 @@ func cmdCheck(prop, tier string) int {
 		},
 		"assumptions": pc.Assume,
 	}
-	os.MkdirAll(filepath.Join(verifDir, "evidence"), 0755)
+	// evidence describes /repo; runs against another tree (the seeded regression
+	// with VERIF_REPO) write theirs elsewhere
+	evDir := filepath.Join(verifDir, "evidence")
+	if d := os.Getenv("VERIF_EVIDENCE_DIR"); d != "" {
+		evDir = d
+	}
+	os.MkdirAll(evDir, 0755)
 	data, _ := json.MarshalIndent(ev, "", " ")
-	os.WriteFile(filepath.Join(verifDir, "evidence", prop+".json"), data, 0644)
+	os.WriteFile(filepath.Join(evDir, prop+".json"), data, 0644)
+	// fault kinds and reach probes that never fired: the workload or the fault mix
+	// does not get there (or a name is dead); reported, never a failure
+	var never []string
+	for k, v := range agg.Faults {
+		if v == 0 {
+			never = append(never, "fault:"+k)
+		}
+	}
+	for k, v := range agg.Reach {
+		if v == 0 && k != "porcupine-unknown" {
+			never = append(never, "reach:"+k)
+		}
+	}
+	sort.Strings(never)
+	if len(never) > 0 {
+		fmt.Printf("NOTE never fired in this batch: %s\n", strings.Join(never, ", "))
+	}
 	fmt.Printf("SUMMARY property=%s tier=%s runs=%d distinct_nontrivial=%d violations_new=%d known=%d wall=%.1fs (build %.1fs)\n", prop, tier, agg.Evaluations, len(sigs), newViol+fatalViols, len(knownSeen), wall, buildS)
 
 	if detMismatch > 0 {
